@@ -84,8 +84,8 @@ void h_str_split_string(void)
 void ST_string_ctor__pc_sz_utf_validation_t(struct ST_string *self, const char *cstr, unsigned long size, ST_utf_validation_t validation)
 {
     SC.calls++; SC.v = validation;
-    __CPROVER_assert(validation == ST_assume_valid || validation == ST_check_validity, "ST_string_split_cstr.postcondition.8: pieces are built unchecked, or re-validated when the separator contains bytes >= 0x80");
-    if (validation == ST_check_validity && nondet_bool()) { ST_EXC = EXC_ST_unicode_error; return; }
+    __CPROVER_assert(validation == ST_utf_validation_t_assume_valid || validation == ST_utf_validation_t_check_validity, "ST_string_split_cstr.postcondition.8: pieces are built unchecked, or re-validated when the separator contains bytes >= 0x80");
+    if (validation == ST_utf_validation_t_check_validity && nondet_bool()) { ST_EXC = EXC_ST_unicode_error; return; }
     ST_string_from_validated__pc_sz(self, cstr, size);
 }
 #endif
@@ -100,7 +100,7 @@ void h_str_split_cstr(void)
     struct std_vector_ST_string res;
     ST_string_split__pc_sz_case_sensitivity_t_k(&res, &s, sep, max, ci ? CI_ : CS);
     if (ST_EXC == EXC_ST_unicode_error) {
-        __CPROVER_assert(SC.v == ST_check_validity && ST_LIVE == live0, "ST_string_split_cstr.postcondition.9: unicode_error only from re-validating a piece; nothing leaked");
+        __CPROVER_assert(SC.v == ST_utf_validation_t_check_validity && ST_LIVE == live0, "ST_string_split_cstr.postcondition.9: unicode_error only from re-validating a piece; nothing leaked");
     } else {
         __CPROVER_assert(TRL_CALLS >= 2 && TRL_S == sep, "ST_string_split_cstr.postcondition.0: the separator length is the C-string length of the given pointer");
         chk_split(&res, s0_c, s0_n, max, TRL_RET, live0);
@@ -146,6 +146,12 @@ void h_str_replace(void)
     split_ghosts(s0_c, s0_n, f0_c, f0_n, ci); long live0 = ST_LIVE;
     RP_TN = t0_n; RP_TO = t0_c; RP_GO = nondet_size_t(); RP_TAIL_OFF = 0;
     size_t total = (t0_n == f0_n) ? s0_n : REM(0);      /* reference length: size + k*(|to|-|from|) for the k occurrences found left to right */
+#ifdef RP_NEQ
+    __CPROVER_assume(t0_n != f0_n);
+#endif
+#ifdef RP_EQ
+    __CPROVER_assume(t0_n == f0_n);
+#endif
     __CPROVER_assume(total < ST_MAXN);                    /* precondition: the result fits the library's size range */
     __CPROVER_assume(BND(0));                             /* the scan starts at offset 0 */
     RP_TOTAL = total; GI3 = (s0_n == 0 || f0_n == 0) ? s0_n : total;                        /* GI3: instantiation hint, the terminator index of the result */
@@ -162,8 +168,8 @@ void h_str_replace(void)
         } else {
             const char *r = res.m_buffer.m_chars; size_t tail = RP_TAIL_OFF;
             __CPROVER_assert(res.m_buffer.m_size == total, "ST_string_replace.postcondition.4: the result has length size + k*(|to| - |from|) for the k non-overlapping occurrences found left to right");
-            __CPROVER_assert(SEG_OK(RP_GO, tail, r), "ST_string_replace.postcondition.5: every segment of the result is the text from a resume point up to the next occurrence, followed by the replacement (arbitrary segment, arbitrary position)");
-            __CPROVER_assert(tail <= s0_n && NXT(tail) == s0_n && POSX(tail) + (s0_n - tail) == total && (!(RP_P >= POSX(tail) && RP_P < total) || r[RP_P] == s0_c[tail + (RP_P - POSX(tail))]),
+            __CPROVER_assert(RP_NO_CONTENT || SEG_OK(RP_GO, tail, r), "ST_string_replace.postcondition.5: every segment of the result is the text from a resume point up to the next occurrence, followed by the replacement (arbitrary segment, arbitrary position)");
+            __CPROVER_assert(tail <= s0_n && NXT(tail) == s0_n && RP_TAIL_W + (s0_n - tail) == total && RP_TAIL_W == POSX(tail) && (RP_NO_CONTENT || !(RP_P >= POSX(tail) && RP_P < total) || r[RP_P] == s0_c[tail + (RP_P - POSX(tail))]),
                              "ST_string_replace.postcondition.6: after the last occurrence the rest of the text is copied verbatim and ends the result");
             __CPROVER_assert(ST_LIVE == live0 + (res.m_buffer.m_size >= SL ? 1 : 0), "ST_string_replace.postcondition.7: exactly the result's block is allocated; nothing leaked");
         }
